@@ -44,7 +44,10 @@ func (s *slowSink) Write(b []byte) (int, error) {
 type c03Event struct {
 	tag     int
 	payload string
+	ms      int // timestamp offset in milliseconds (events carry different times)
 }
+
+type c03TimeKey struct{}
 
 func c03Payload(i int, long bool) string {
 	if long {
@@ -55,7 +58,13 @@ func c03Payload(i int, long bool) string {
 
 // c03Emit is the single call site of every event (so file:line is the same in the reference run).
 func c03Emit(ev c03Event) {
-	log.Info(context.Background(), c03Tags[ev.tag], log.String("k", ev.payload), log.Int("n", len(ev.payload)))
+	ctx := context.WithValue(context.Background(), c03TimeKey{}, ev.ms)
+	log.Info(ctx, c03Tags[ev.tag], log.String("k", ev.payload), log.Int("n", len(ev.payload)))
+}
+
+func c03Time(ctx context.Context) time.Time {
+	ms, _ := ctx.Value(c03TimeKey{}).(int)
+	return fixedT.Add(time.Duration(ms) * time.Millisecond)
 }
 
 type c03Cfg struct {
@@ -115,7 +124,7 @@ func (c c03Cfg) run(threads [][]c03Event, obs *c03Obs) {
 	x := zzvrt.Cur()
 	sink := &slowSink{}
 	zzvrt.Atomic(func() {
-		log.TimeNow = func(context.Context) time.Time { return fixedT }
+		log.TimeNow = c03Time
 		log.Stdout = sink
 		x.FS.MkdirAll("/logs")
 		if c.sink != "builtin" {
@@ -191,25 +200,24 @@ func multisetDiff(got, want []string) string {
 }
 
 func c03Scenario(c c03Cfg, b zzvrt.Bounds) *zzvrt.Scenario {
-	// reference: every event formatted alone, sequentially, by the same path
-	var all []c03Event
-	for _, t := range c.threads {
-		all = append(all, t...)
-	}
-	var ref c03Obs
-	log.VerifReset()
-	rx := zzvrt.Run(func() { c.run([][]c03Event{all}, &ref) }, nil, zzvrt.RunOpts{Bounds: zzvrt.Bounds{Horizon: 100000}})
-	if rx.Outcome != "" || ref.err != "" {
-		// the reference run itself fails: report through the scenario (every execution will fail too)
-		fmt.Fprintf(os.Stderr, "c03: reference run failed: outcome=%q err=%q\n", rx.Outcome, ref.err)
-	}
+	// reference: every event formatted ALONE - its own run from a freshly reset package, by the same path
 	var wantLines []string
-	switch c.sink {
-	case "console", "builtin", "fanout":
-		wantLines = ref.console
-	default:
-		for _, w := range ref.files {
-			wantLines = append(wantLines, w...)
+	for _, t := range c.threads {
+		for _, ev := range t {
+			var ref c03Obs
+			resetAll()
+			rx := zzvrt.Run(func() { c.run([][]c03Event{{ev}}, &ref) }, nil, zzvrt.RunOpts{Bounds: zzvrt.Bounds{Horizon: 100000}})
+			if rx.Outcome != "" || ref.err != "" {
+				fmt.Fprintf(os.Stderr, "c03: reference run failed: outcome=%q err=%q\n", rx.Outcome, ref.err)
+			}
+			switch c.sink {
+			case "console", "builtin", "fanout":
+				wantLines = append(wantLines, ref.console...)
+			default:
+				for _, w := range ref.files {
+					wantLines = append(wantLines, w...)
+				}
+			}
 		}
 	}
 	var obs c03Obs
@@ -272,7 +280,9 @@ func c03Scenario(c c03Cfg, b zzvrt.Bounds) *zzvrt.Scenario {
 }
 
 func init() {
-	ev := func(i, tag int, long bool) c03Event { return c03Event{tag: tag, payload: c03Payload(i, long)} }
+	ev := func(i, tag int, long bool) c03Event {
+		return c03Event{tag: tag, payload: c03Payload(i, long), ms: (i % 2) * 7}
+	}
 	shapes := map[string][][]c03Event{
 		"2x1":     {{ev(0, 0, false)}, {ev(1, 1, false)}},
 		"2x2":     {{ev(0, 0, false), ev(2, 0, false)}, {ev(1, 1, false), ev(3, 1, false)}},
